@@ -50,6 +50,24 @@ def must_pass(body, X, Y, T):
     return not (r & Y)
 
 
+def always_before(body, A, b):
+    """On every *feasible* path (kvlib.paths.explore: path-sensitive about `?` on the results of spliced-in helpers, constant
+    temporaries, tracked flags) that reaches block b, one of the blocks A was passed earlier.  Dominance says the same for
+    straight code; with a fallible helper spliced in, the helper's error exit and the caller's success arm meet in the CFG
+    although no execution combines them."""
+    from .paths import explore
+    A = set(A)
+    seen = False
+    for p in explore(body):
+        if b not in p.blocks:
+            continue
+        seen = True
+        i = p.blocks.index(b)
+        if not (A & set(p.blocks[:i])):
+            return False
+    return seen
+
+
 def never_reach(body, X, Z, stop=()):
     """NEVER: no Z block reachable from X (starting at X), not passing beyond `stop` blocks."""
     r = body.reachable(X, removed=(), stop=stop)
@@ -64,10 +82,11 @@ def switch_on_call(body, call_bb):
     if dest['p']:
         return None
     want = {dest['l']}
-    # follow straight-line successors looking for a switch on the value
+    # follow straight-line successors looking for a switch on the value (through copies and negations: the value may travel
+    # through the return slot of a spliced-in helper, `_r = !x` in one arm of a short-circuit, before it is tested)
     seen = set()
     cur = t.get('t')
-    for _ in range(12):
+    for _ in range(16):
         if cur is None or cur in seen:
             return None
         seen.add(cur)
@@ -79,12 +98,16 @@ def switch_on_call(body, call_bb):
                     l = op_local(rv['op'])
                     if l in want:
                         want.add(s['lhs']['l'])
+                    elif ('not', l) in want:
+                        want.add(('not', s['lhs']['l']))
                 if rv['k'] == 'discr' and not rv['pl']['p'] and rv['pl']['l'] in want:
                     want.add(s['lhs']['l'])
                 if rv['k'] == 'un' and rv['op'] == 'Not':
                     l = op_local(rv['a'])
                     if l in want:
                         want.add(('not', s['lhs']['l']))
+                    elif ('not', l) in want:
+                        want.add(s['lhs']['l'])
         tt = blk['term']
         if tt['k'] == 'switch':
             l = op_local(tt['op'])
